@@ -27,7 +27,10 @@ class HarnessGen:
         self.L = L
         self.K = K
         self.both_calls = True
+        self.force_encode_side = False
         self.rr = RustRef(mdl, acap=max(L, 2), pcap=max(L, 2), ocap=4 * L + 16)
+        self.rr.kdraw = self.rr.pdraw = K
+        self.rr.mcmp = min(self.rr.ocap, 24)
 
     @staticmethod
     def unwind(L: int) -> int:
@@ -102,6 +105,102 @@ class HarnessGen:
         w.close()
         w.close()
 
+    # ------------------------------------------------------------------ value-driven harnesses
+    def _draw(self, w: W, t: str):
+        w('let mut drawn = true;')
+        w(f'let rv = draw_{t}(&mut KaniSrc, {self.K}, {self.K}, &mut drawn);')
+        w('kani::assume(drawn);')
+        w('let mut ef = EFaults::new();')
+        w(f'ref_wf_{t}(&rv, &mut ef);')
+
+    def _encode_ref(self, w: W, t: str):
+        w(f'let mut ro = RBuf::<{self.rr.ocap}>::new();')
+        w(f'ref_encode_{t}(&rv, &mut ro);')
+        w(f'kani::assume(!ro.overflow && ro.len <= {self.rr.mcmp});')
+
+    def h_c03(self, w: W, t: str, L: int):
+        """bytes written by encode == reference encoding, for every well-formed value"""
+        w(f'#[kani::proof]\n#[kani::unwind({self.unwind_v()})]')
+        w.open(f'fn c03_{t}() {{')
+        self._draw(w, t)
+        w('kani::assume(ef.count == 0);')
+        w(f'let v = match build_{t}(&rv) {{ Some(v) => v, None => return }};')
+        self._encode_ref(w, t)
+        w(f'let mut out = ArrBuf::<{self.rr.ocap}>::new();')
+        w('let r = v.encode(&mut out);')
+        w('assert!(r.is_ok(), "C03: encode fails on a well-formed value");')
+        w('assert!(bytes_eq_m(&out.buf, out.len, &ro.buf, ro.len), "C03: encoded bytes differ from the reference wire format");')
+        w('assert!(out.len == v.encoded_len(), "C05: bytes written differ from encoded_len()");')
+        w('kani::cover!(true, "accepting path");')
+        w('std::mem::forget(v); std::mem::forget(r);')
+        w.close()
+
+    def h_c05(self, w: W, t: str, L: int):
+        """ALL values: Err iff not well-formed (right variant for a single cause), never truncates"""
+        w(f'#[kani::proof]\n#[kani::unwind({self.unwind_v()})]')
+        w.open(f'fn c05_{t}() {{')
+        self._draw(w, t)
+        w(f'let v = match build_{t}(&rv) {{ Some(v) => v, None => return }};')
+        w(f'let mut out = ArrBuf::<{self.rr.ocap}>::new();')
+        w('let r = v.encode(&mut out);')
+        w.open('match &r {')
+        w.open('Ok(()) => {')
+        w('assert!(ef.count == 0, "C05: encode succeeds on a value that cannot be represented (truncation)");')
+        self._encode_ref(w, t)
+        w('assert!(bytes_eq_m(&out.buf, out.len, &ro.buf, ro.len), "C05: encoded bytes differ from the reference (wrapped or truncated bits)");')
+        w('assert!(out.len == v.encoded_len(), "C05: bytes written differ from encoded_len()");')
+        w('kani::cover!(true, "accepting path");')
+        w.close()
+        w.open('Err(e) => {')
+        w('assert!(ef.count != 0, "C05: encode fails on a well-formed value");')
+        w('assert!(ef.count != 1 || efault_of(e) == ef.first, "C05: single cause reported with the wrong EncodeError variant");')
+        w.close()
+        w.close()
+        w('std::mem::forget(v); std::mem::forget(r);')
+        w.close()
+
+    def h_c02(self, w: W, t: str, L: int):
+        """decode_full(encode(v)) == v, also through every ancestor + specialize"""
+        w(f'#[kani::proof]\n#[kani::unwind({self.unwind_v()})]')
+        w.open(f'fn c02_{t}() {{')
+        self._draw(w, t)
+        w('kani::assume(ef.count == 0);')
+        w(f'let v = match build_{t}(&rv) {{ Some(v) => v, None => return }};')
+        w(f'let mut out = ArrBuf::<{self.rr.ocap}>::new();')
+        w('let r = v.encode(&mut out);')
+        w('assert!(r.is_ok(), "C02: encode fails on a well-formed value");')
+        w.open(f'match {t}::decode_full(out.bytes()) {{')
+        w(f'Ok(back) => {{ assert!(eq_{t}(&back, &rv), "C02: decode_full(encode(v)) differs from v"); kani::cover!(true, "accepting path"); std::mem::forget(back); }}')
+        w('Err(e) => { assert!(false, "C02: decode_full(encode(v)) fails"); std::mem::forget(e); }')
+        w.close()
+        ch = self.m.chain(t)
+        if len(ch) > 1:
+            # the same bytes decoded as the root and specialized down level by level
+            w.open(f'match {ch[0]}::decode_full(out.bytes()) {{')
+            w.open('Ok(p0) => {')
+            for i in range(1, len(ch)):
+                w(f'let p{i} = match p{i - 1}.specialize() {{ Ok({ch[i - 1]}Child::{ch[i]}(c)) => c, '
+                  f'_ => {{ assert!(false, "C02: ancestor does not specialize back to the encoded type"); return; }} }};')
+            w(f'assert!(eq_{t}(&p{len(ch) - 1}, &rv), "C02: value specialized from the root differs from v");')
+            w.close()
+            w('Err(e) => { assert!(false, "C02: the root does not decode the child encoding"); std::mem::forget(e); }')
+            w.close()
+        w('std::mem::forget(v); std::mem::forget(r);')
+        w.close()
+
+    def unwind_v(self) -> int:
+        """loops of the value-driven harnesses: draw loops (<= 6), arrays <= K, output <= OCAP via memcpy,
+        decode of the encoding (<= pcap octets)"""
+        return max(self.K, self.rr.pdraw, self.max_static_count()) + 2
+
+    def max_static_count(self) -> int:
+        m = 0
+        for n, fs in self.m.fields.items():
+            for f in fs:
+                if f.kind == 'array' and f.count is not None:
+                    m = max(m, f.count)
+        return m
+
     # ------------------------------------------------------------------ module
     def module(self, generated: str, harnesses: List[Tuple[str, str]], need_ref=True) -> str:
         """harnesses: [(kind, type)]"""
@@ -112,6 +211,8 @@ class HarnessGen:
             w('use super::*;')
             w('use crate::support::*;')
             w(self.rr.emit_decode_side())
+            if any(k in ('c02', 'c03', 'c05', 'c16', 'c17', 'c06v') for k, _, _ in harnesses) or self.force_encode_side:
+                w(self.rr.emit_encode_side())
             w.close()
         w('#[cfg(kani)]')
         w.open('mod h {')
